@@ -6,6 +6,7 @@ package main
 import (
 	"math"
 	"math/rand"
+	"strconv"
 
 	"github.com/deadsy/sdfx/render"
 	"github.com/deadsy/sdfx/sdf"
@@ -33,11 +34,16 @@ type meshStat struct {
 }
 
 func stat3(name, param string, s sdf.SDF3, which string, cells int) meshStat {
-	var r render.Render3
-	if which == "mcu" {
-		r = render.NewMarchingCubesUniform(cells)
-	} else {
-		r = render.NewMarchingCubesOctree(cells)
+	// one renderer object per (kind, cells) for the whole run: a renderer may be used for any number of shapes
+	key := which + "/" + strconv.Itoa(cells)
+	r := sceneR3[key]
+	if r == nil {
+		if which == "mcu" {
+			r = render.NewMarchingCubesUniform(cells)
+		} else {
+			r = render.NewMarchingCubesOctree(cells)
+		}
+		sceneR3[key] = r
 	}
 	ts := render.ToTriangles(s, r)
 	box, h := sampledBox(s, which, cells)
@@ -75,11 +81,22 @@ func stat3(name, param string, s sdf.SDF3, which string, cells int) meshStat {
 	return o
 }
 
+var sceneR3 = map[string]render.Render3{}
+var sceneR2 = map[string]render.Render2{}
+
 func collect2(s sdf.SDF2, which string, cells int) []*sdf.Line2 {
-	if which == "msu" {
-		return collectLines(s, render.NewMarchingSquaresUniform(cells))
+	// one renderer object per (kind, cells) for the whole run (see stat3)
+	key := which + "/" + strconv.Itoa(cells)
+	r := sceneR2[key]
+	if r == nil {
+		if which == "msu" {
+			r = render.NewMarchingSquaresUniform(cells)
+		} else {
+			r = render.NewMarchingSquaresQuadtree(cells)
+		}
+		sceneR2[key] = r
 	}
-	return collectLines(s, render.NewMarchingSquaresQuadtree(cells))
+	return collectLines(s, r)
 }
 
 func stat2(name, param string, s sdf.SDF2, which string, cells int, radius, perim float64, seq int) meshStat {
@@ -225,6 +242,32 @@ func c08Scenes(args []string) error {
 				emit(stat2("pow2-circle", fmtf(float64(cells)), ci, which, cells, 0, 0, 0))
 				emit(stat2("pow2-plate", fmtf(float64(cells)), pl, which, cells, 0, 0, 0))
 			}
+		}
+	}
+	// different shapes with the same bounding box, one after the other on the same renderer object
+	{
+		ci, _ := sdf.Circle2D(1)
+		sq := sdf.Box2D(v2.Vec{X: 2, Y: 2}, 0)
+		di, _ := sdf.Polygon2D([]v2.Vec{{X: 1, Y: 0}, {X: 0, Y: 1}, {X: -1, Y: 0}, {X: 0, Y: -1}})
+		for _, which := range []string{"msq", "msu"} {
+			for round := 0; round < 2; round++ {
+				emit(stat2("samebox-square", fmtf(float64(round)), sq, which, 64, 0, 8, 3))
+				emit(stat2("samebox-circle", fmtf(float64(round)), ci, which, 64, 1, 2*math.Pi, 3))
+				emit(stat2("samebox-diamond", fmtf(float64(round)), di, which, 64, 0, 4*math.Sqrt2, 3))
+			}
+		}
+	}
+	// fields that over-estimate the distance (Transform2D with a shrinking scale: "distance is not preserved with
+	// scaling"): the uniform renderer samples every lattice point and needs only the signs and the values next
+	// to the boundary. (The quadtree renderer prunes by distance and is not offered such fields.)
+	{
+		c4, _ := sdf.Circle2D(4)
+		b2 := sdf.Box2D(v2.Vec{X: 2, Y: 2}, 0)
+		for _, cells := range []int{40, 64, 150} {
+			emit(stat2("overest-circle", fmtf(float64(cells)), sdf.Transform2D(c4, sdf.Scale2d(v2.Vec{X: 0.25, Y: 0.25})), "msu", cells, 0, 2*math.Pi, 0))
+			emit(stat2("overest-box", fmtf(float64(cells)), sdf.Transform2D(b2, sdf.Scale2d(v2.Vec{X: 1, Y: 0.25})), "msu", cells, 0, 5, 0))
+			emit(stat2("overest-box-moved", fmtf(float64(cells)),
+				sdf.Transform2D(b2, sdf.Translate2d(v2.Vec{X: 3.3, Y: -1.7}).Mul(sdf.Rotate2d(0.4)).Mul(sdf.Scale2d(v2.Vec{X: 0.2, Y: 0.6}))), "msu", cells, 0, 2*(0.4+1.2), 0))
 		}
 	}
 	// a very deep quadtree (17 levels): a long thin box at more than 2^15 cells
